@@ -97,6 +97,11 @@ class ProducerMonitor(taps.Monitor):
         if exc is not None or not pre_ok:
             ctx.count('producer_returns_not_judged')
             return
+        if self.closure and len(args) > 1 and is_corr(args[1]):
+            # Obs / CObs operator with a correlator as partner: the quantifier lists Obs / CObs / numbers / arrays as partners
+            # (correlator arithmetic is C14's subject, where CObs as the left operand is outside the stated subset)
+            ctx.count('arithmetic_with_correlator_partner_outside_quantifier')
+            return
         ctx.count('producer_returns_checked')
         ctx.cell('producer', self.key)
         probs = wellformed_any(result, allow_nan=True)
@@ -486,12 +491,15 @@ def case_rejection(ctx, rng):
     n = int(rng.integers(5, 30))
     x = rng.normal(size=n)
     y = rng.normal(size=n)
+    perm = [int(i) for i in rng.permutation(np.arange(1, n + 1))]
+    if perm == sorted(perm):          # the identity is a legitimate list: make it a genuinely unsorted one
+        perm[0], perm[1] = perm[1], perm[0]
     rows = {
         'duplicate-names': lambda: pe.Obs([x, y], ['A|r1', 'A|r1']),
         'non-string-name-single': lambda: pe.Obs([x], [5]),
         'non-string-name-several': lambda: pe.Obs([x, y], ['A|r1', 7]),
         'non-string-name-bytes': lambda: pe.Obs([x], [b'A']),
-        'unsorted-idl-list': lambda: pe.Obs([x], ['A'], idl=[[int(i) for i in rng.permutation(np.arange(1, n + 1))] if n > 1 else [1]]),
+        'unsorted-idl-list': lambda: pe.Obs([x], ['A'], idl=[perm]),
         'unsorted-idl-ndarray': lambda: pe.Obs([x], ['A'], idl=[np.arange(n, 0, -1)]),
         'unsorted-idl-one-swap': lambda: pe.Obs([x], ['A'], idl=[list(range(1, n - 1)) + [n, n - 1]]),
         'duplicate-idl': lambda: pe.Obs([x], ['A'], idl=[list(range(1, n)) + [n - 1]]),
